@@ -171,6 +171,20 @@ def analyse_pages(outdir, rec, r):
         rec.violation(f"page-unexpected:{stem}", f"page {stem}.rst was generated but the source has no documentation (own walk)", {"page": stem})
     import symplyphysics.symbols as symbols_pkg
     import symplyphysics.quantities as quantities_mod
+    # what the generated pages themselves declare (py:currentmodule + py:data / py:function): the targets a cross-reference
+    # can resolve to
+    declared = set()
+    for stem in got:
+        with open(os.path.join(outdir, stem + ".rst"), encoding="utf-8") as f:
+            ptext = f.read()
+        cur = None
+        for line in ptext.splitlines():
+            mcur = re.match(r"\.\. py:currentmodule:: (\S+)", line)
+            if mcur:
+                cur = mcur.group(1)
+            mdat = re.match(r"\.\. py:(?:data|function):: (\w+)", line)
+            if mdat and cur:
+                declared.add(cur + "." + mdat.group(1))
     for stem in sorted(got & set(exp)):
         rec.checkpoint(20)
         kind, src = exp[stem]
@@ -192,9 +206,27 @@ def analyse_pages(outdir, rec, r):
                 ok = hasattr(quantities_mod, m.group(3))
             if not ok:
                 rec.violation(f"attr-target-missing:{m.group(0)}", f"{stem}.rst links to {m.group(0)} which does not exist", case)
+            elif m.group(0)[8:-1] not in declared:
+                rec.violation(f"attr-target-undocumented:{m.group(0)[8:-1]}", f"{stem}.rst links to {m.group(0)}, but no generated page declares that name (the cross-reference does not resolve)", case)
         if not text.strip() or "=" * 3 not in text and "-" * 3 not in text:
             rec.violation(f"page-without-title:{stem}", f"{stem}.rst has no title", case)
         if kind != "law":
+            # a package page lists the documented members of its __init__.py (own reading, as for law modules below)
+            try:
+                with open(src, encoding="utf-8") as f:
+                    ptree = ast.parse(f.read())
+                pblocks = split_members(text)
+                for i, stmt in enumerate(ptree.body[:-1]):
+                    nxt = ptree.body[i + 1]
+                    if isinstance(stmt, ast.Assign) and isinstance(nxt, ast.Expr) and isinstance(nxt.value, ast.Constant) and isinstance(nxt.value.value, str):
+                        names = [t.id for t in stmt.targets if isinstance(t, ast.Name)]
+                        if not names or names[0].startswith("_"):
+                            continue
+                        rec.hit("package_members_expected")
+                        if names[0] not in pblocks:
+                            rec.violation(f"member-missing:{stem}.{names[0]}", f"package page {stem}.rst lacks the documented member {names[0]}", dict(case, member=names[0]))
+            except SyntaxError:
+                pass
             continue
         modname = "symplyphysics." + stem
         try:
